@@ -316,6 +316,26 @@ def design_case(arg):
         return {"key": key, "driver_error": traceback.format_exc()}
 
 
+def prediction_differs(case, show, row):
+    """emitted prediction of JUnit_MC (reporter automaton on the abstract feature) vs the parsed document of the real run
+    (informational full conformance; entries: kind and named steps, hook only for entries that name no step)"""
+    pred = case["shown" if show else "hidden"]
+    f = row["files"][0]
+    crashed = bool(row["end"]["escaped"]) and not f["exists"]
+    if pred["crashed"] or crashed:
+        return pred["crashed"] != crashed
+    if pred["exists"] != f["exists"]:
+        return True
+    if not f["exists"]:
+        return False
+
+    def norm(cases):
+        return [[c["el"], c["status"], [[e["kind"], list(e["steps"]), bool(e["hook"]) and not e["steps"]]
+                                        for e in c["entries"] if e["kind"] in ("failure", "error", "skipped")]] for c in cases]
+    return ([pred[k] for k in ("tests", "failures", "errors", "skipped")] != [f[k] for k in ("tests", "failures", "errors", "skipped")]
+            or norm(pred["cases"]) != norm(f["cases"]))
+
+
 def pmap(fn, jobs):
     from multiprocessing import Pool
     if PROCS <= 1 or len(jobs) < 20:
@@ -352,7 +372,7 @@ def signature(v, row):
         bad = [k for k in scen if row["end"]["status"][k] in ("error", "hook_error") and not row["end"]["hook_failed"][k]
                and not any(s in ("error", "hook_error", "pending", "undefined") for s in steps[k])]
         parts.append("failed_step=%d" % int(any("failed" in steps[k] for k in bad)))
-    elif el and 0 < el <= len(row["end"]["status"]):
+    elif clause.split("/")[0] in ("C16.status", "C16.problem_entry") and 0 < el <= len(row["end"]["status"]):
         parts.append("status=%s" % row["end"]["status"][el - 1])
     parts.append("dry=%d" % int(row["cfg"]["dry"]))
     return "|".join(parts)
@@ -365,8 +385,9 @@ def judge(chk, rows, metas):
     for m, c, r in chk.tlc_runs[first:]:
         diverge.extend(r.by_tag("DIVERGE"))
     byid = {r["id"]: r for r in rows}
-    for rid, vs in sorted(verdicts.items()):
-        for v in vs:
+    # smallest programs first: the replay file of a signature is its smallest failing input
+    for rid, vs in sorted(verdicts.items(), key=lambda kv: (len(byid[kv[0]]["prog"]), kv[0])):
+        for v in sorted(vs):
             job, out = metas[rid]
             row = byid[rid]
             payload = {"part": "run", "job": {k: job[k] for k in ("key", "prog", "cfg", "fault", "fault_kind", "sw", "all_writers", "kind")}}
@@ -394,19 +415,20 @@ def run(chk):
     # 1. design level: TLC runs in the background while the XML part and the real runs are driven
     ex = ThreadPoolExecutor(max_workers=1)
     mc_cfg = "JUnit_MC_quick.cfg" if quick else "JUnit_MC_thorough.cfg"
-    fut = ex.submit(chk.tlc, "JUnit_MC", mc_cfg, timeout=3000, workers=max(2, WORKERS // 4), coverage=False, heap="8g")
+    fut = ex.submit(chk.tlc, "JUnit_MC", mc_cfg, timeout=3000, workers=max(2, WORKERS // 4) if quick else max(3, WORKERS // 2),
+                    coverage=False, heap="8g")
     try:
         # part "xml" (finished elsewhere): well-formedness
         c16_xml.run_xml(chk, workers=WORKERS, procs=min(8, PROCS))
         xml_rule, chk.rule = chk.rule, ""
         walls["xml"] = round(time.time() - t0, 1)
         # 3. real runs of the shared plan
-        jobs, planned = plan_jobs(chk, 1200 if quick else 24000, rnd)
+        jobs, planned = plan_jobs(chk, 1200 if quick else 20000, rnd)
         # 4. userdata switches on cases with skipped scenarios, problems and outlines
         base = [j for j in jobs if not j["all_writers"]]
         pool = [j for j in base if job_class(j)[6]] + base
         sjobs = []
-        for n, j in enumerate(pool[:60 if quick else 1500]):
+        for n, j in enumerate(pool[:60 if quick else 1200]):
             sw = SWITCH_SETS[n % len(SWITCH_SETS)]
             cfg = dict(j["cfg"], show_skipped=False) if n % 2 == 0 else j["cfg"]
             sjobs.append(mk_job(["switch", n] + j["key"][1:], j["prog"], j["flat"], cfg, j["fault"], j["fault_kind"], sw=sw, kind="switch"))
@@ -425,7 +447,7 @@ def run(chk):
     producible = [c for c in emitted if design_plan(c) is not None]
     small = [c for c in producible if len(c["ds"]) <= 1]
     rest = [c for c in producible if len(c["ds"]) > 1]
-    nrest = 220 if quick else 6000
+    nrest = 220 if quick else 5000
     if len(rest) > nrest:
         rest = rnd.sample(rest, nrest)
     dargs = []
@@ -439,7 +461,7 @@ def run(chk):
         rid = len(rows) + 1
         rows.append(make_row(rid, job, o))
         metas[rid] = (job, o)
-    skipped, unrealised = {}, []
+    skipped, unrealised, mispredicted = {}, [], []
     for o in design_out:
         if "driver_error" in o:
             raise RuntimeError("design driver failed on %s:\n%s" % (o["key"], o["driver_error"]))
@@ -452,12 +474,17 @@ def run(chk):
         rid = len(rows) + 1
         rows.append(make_row(rid, o["job"], o["out"]))
         metas[rid] = (o["job"], o["out"])
+        if o["realised"] and prediction_differs(o["case"], o["show"], rows[-1]):
+            mispredicted.append({"ds": o["case"]["ds"], "sh": o["case"]["sh"], "show": o["show"]})
     walls["design_rows"] = round(time.time() - t0, 1)
     verdicts, diverge = judge(chk, rows, metas)
     walls["judged"] = round(time.time() - t0, 1)
     chk.extra["run_wall_s_cumulative"] = walls
     # evidence
-    chk.divergences += len({t[1] for t in diverge}) + len(unrealised)
+    chk.divergences += len({t[1] for t in diverge}) + len(unrealised) + len(mispredicted)
+    if mispredicted:
+        chk.extra["design_mispredicted_samples"] = mispredicted[:5]
+        chk.note("DIVERGENCE spec=JUnit_MC: %d design rows differ from the emitted prediction (informational)" % len(mispredicted))
     if diverge:
         chk.extra["run_divergence_samples"] = [{"row": t[1], "feature": t[2], "what": t[3], "kind": metas[t[1]][0]["kind"],
                                                 "key": metas[t[1]][0]["key"]} for t in diverge[:5]]
@@ -494,6 +521,7 @@ def run(chk):
     chk.extra["design_cases_producible"] = len(producible)
     chk.extra["design_rows_skipped"] = skipped
     chk.extra["design_rows_unrealised"] = len(unrealised)
+    chk.extra["design_rows_differing_from_emitted_prediction"] = len(mispredicted)
     chk.extra["distinct_nontrivial"] = chk.extra.get("distinct_nontrivial", 0) + len(
         {json.dumps([x["prog"], x["cfg"], x["sw"], x["end"]["status"], x["end"]["step_status"], x["hooks_raised"]], sort_keys=True)
          for x in rows if any(f["exists"] and f["cases"] for f in x["files"])})
